@@ -670,3 +670,32 @@ Example no_close_leaks :
               (exec_nocb 0 o200 ++ exec_nocb 0 o200 ++ exec_nocb 0 o500 ++ exec_nocb 0 o200 ++ exec_nocb 0 o200) = Some s /\
             j_lock s = None /\ j_open s = 5.
 Proof. eexists. split; [vm_compute; reflexivity|]. vm_compute. repeat split. Qed.
+
+(* ---- ShellJob: an execution in which the shell is never started (context already done, shell
+   missing / not executable: Run fails before a process exists) is an execution like any other ---- *)
+Lemma sh_not_started_spec : forall (S : Type) (out err : S),
+  sh_commit S (NotStarted, out, err) = (out, err, (-1)%Z, go_StatusFailure) /\
+  sh_return S (NotStarted, out, err) = Some NotStarted /\
+  sh_status NotStarted <> go_StatusOK.
+Proof. intros. split; [reflexivity|]. split; [reflexivity|]. vm_compute. discriminate. Qed.
+
+(* any threads, any interleaving, whatever was executed before: once such an execution is the last
+   one committed, a reader sees its tuple (its own, empty, buffers; -1; Failure), not an older one *)
+Lemma sh_not_started_visible : forall (S : Type) (empty : S) cb tr (s : jstate (sh_outcome S)) t out err,
+  jrun no_body (sh_cfg cb) jinit tr = Some s -> j_lock s = None ->
+  j_last s = Some (t, (NotStarted, out, err)) ->
+  sh_visible empty s = (out, err, (-1)%Z, go_StatusFailure).
+Proof.
+  intros S empty cb tr s t out err Hr Hl Hlast.
+  destruct (sh_last_outcome_atomic S empty cb tr s Hr Hl) as [Hv _].
+  rewrite Hv, Hlast. reflexivity.
+Qed.
+
+(* non-vacuity: run(exit 0) then an execution that never starts the shell, with a callback *)
+Example sh_not_started_nontrivial :
+  exists s, jrun no_body (sh_cfg true) jinit
+              [JCompute 0 (Exited 0%Z, 5, 6); JLock 0; JWrite 0; JWrite 0; JWrite 0; JWrite 0; JUnlock 0; JCallback 0; JReturn 0;
+               JCompute 0 (NotStarted, 0, 0); JLock 0; JWrite 0; JWrite 0; JWrite 0; JWrite 0; JUnlock 0; JCallback 0; JReturn 0] = Some s /\
+            j_lock s = None /\ j_last s = Some (0, (NotStarted, 0, 0)) /\
+            sh_visible 0 s = (0, 0, (-1)%Z, go_StatusFailure).
+Proof. eexists. split; [vm_compute; reflexivity|]. vm_compute. repeat split. Qed.
